@@ -762,7 +762,7 @@ def search(ctx, broken):
     _, _, fails, _ = partial_cases(t)
     out += [f for f in fails if f['kind'] == 'prop' and f['signature'] != 'c14-labels-no-identity']
     fails, _, _ = derived_cases(t)
-    out += [f for f in fails if f['signature'] != 'c14-stale-flags-inplace']
+    out += fails
     for f in out:
         f['broken_obligations'] = broken
     return out[:5]
